@@ -489,11 +489,15 @@ def check_ginv(run, rule='R21'):
         run.error('R21: Ginv: coefficient of S@S is %s, not the recognised closed form %s' % (coef['S @ S'], want))
     # v = Ginv @ t, w = vex(S), theta = norm(w), S from the recursion on R
     from .r16_tables import _enclosing_block
-    blk = _enclosing_block(f.node, g) or []
+    blk = _enclosing_block(f.node, getattr(g, '_orig', g)) or []
     txt = {st.targets[0].id: ast.unparse(canon(fi, st.value, inline=False)) for st in blk
            if isinstance(st, ast.Assign) and isinstance(st.targets[0], ast.Name)}
     for nm_, want_s in (('v', 'Ginv @ t'), ('w', 'vex(S)'), ('S', 'trlog(R, check=False)')):
-        ok = txt.get(nm_) == want_s
+        if nm_ not in txt:
+            # the local is not there under this name (inlined into its use): nothing is known about it
+            run.error('R21: trlog: no local %s = %s in the SE(3) branch' % (nm_, want_s))
+            continue
+        ok = txt.get(nm_) == want_s or (nm_ == 'v' and getattr(g, '_orig', None) is not None and matches('_G @ t', parse_expr(txt[nm_])) is not None)
         (run.holds if ok else run.violation)(rule, f.key, 'SE(3) log: ' + nm_, '%s = %s' % (nm_, want_s) if ok else '%s is %s, expected %s' % (nm_, txt.get(nm_), want_s), f=f)
 
 
